@@ -689,7 +689,8 @@ def run_script(c, ctx):
             if stream[o_idx] is not None:
                 R.bucket('script:uncached-mid-stream')
             cache_before = None if fb.cache is None else np.array(fb.cache, copy=True)
-            o = np.asarray(ctx.call(fb.channelize, d.copy(), cache=False))
+            # the flag by keyword or in the position the signature documents for it: channelize(x, cache)
+            o = np.asarray(ctx.call(fb.channelize, d.copy(), cache=False) if t % 2 else ctx.call(fb.channelize, d.copy(), False))
             outputs.append(o)
             same_cache = (fb.cache is None) if cache_before is None else \
                 (fb.cache is not None and np.array_equal(np.asarray(fb.cache), cache_before))
@@ -711,7 +712,7 @@ def run_script(c, ctx):
         first = stream[o_idx] is None
         s_new = d.copy() if first else np.concatenate([stream[o_idx], d])
         T0 = 0 if first else len(stream[o_idx]) // MP
-        o = np.asarray(ctx.call(fb.channelize, d.copy(), cache=True))
+        o = np.asarray(ctx.call(fb.channelize, d.copy(), cache=True) if t % 3 else ctx.call(fb.channelize, d.copy(), True))
         outputs.append(o)
         stream[o_idx] = s_new
         R.count('chunk_calls')
